@@ -404,7 +404,7 @@ Section Hist.
     - (* first = 0: the empty proof *)
       exists []. split.
       + assert (Hf0 : parse_int64 pf = Some 0) by (rewrite Hf, Z1; reflexivity).
-        apply (consistency_zero H cfg st3 pf ps (Z.of_N n2) Hf0 Hs); lia.
+        apply (consistency_zero H cfg cfg_direct st3 pf ps (Z.of_N n2) Hf0 Hs); lia.
       + unfold client_verify_consistency, verify_consistency. rewrite Z1.
         replace (n2 <? 0)%N with false by (symmetry; apply N.ltb_ge; lia).
         destruct (0 =? n2)%N eqn:E0; [|reflexivity].
@@ -461,9 +461,9 @@ Section Hist.
     exists lf. eexists. split; [reflexivity|].
     pose proof (inv_after ns0 _ Hh) as Hinv. fold st3 in Hinv.
     unfold answer_at. fold st3. cbn [step snd]. split; [|split; [reflexivity|]].
-    - rewrite (entry_and_proof_200 H cfg H_len cfg_direct st3 pli pts i (Z.of_N n) lf); try assumption; try lia.
-      + rewrite N2Z.id. reflexivity.
-      + eapply seq_leaf_nonempty; eauto.
+    - assert (Hne : lv lf <> []) by (eapply seq_leaf_nonempty; eauto).
+      rewrite (entry_and_proof_200 H cfg cfg_direct st3 pli pts i (Z.of_N n) lf); try assumption; try lia.
+      rewrite N2Z.id. reflexivity.
     - unfold client_verify_inclusion. rewrite Rt. unfold root_of.
       set (l := firstN n (values (be st3))).
       assert (Ll : lenN l = n) by (unfold l; apply lenN_firstN; rewrite bsize_values; exact L).
@@ -482,7 +482,7 @@ Section Hist.
         exists lf, nth_error (bs (be (afterf s0 ops))) (Z.to_nat st0 + j) = Some lf /\ v = lv lf /\ x = lx lf.
   Proof.
     intros Hs He H0 Hlt. set (st := afterf s0 ops) in *.
-    destruct (entries_200 H cfg H_len cfg_direct cfg_maxr st ps pe st0 e0 Hs He H0 Hlt) as (en & _ & Hen & Hmax & Ha).
+    destruct (entries_200 H cfg cfg_direct cfg_maxr st ps pe st0 e0 Hs He H0 Hlt) as (en & _ & Hen & Hmax & Ha).
     cbv zeta in Ha. eexists. split; [unfold answer_at; fold st; cbn [step snd]; exact Ha|].
     set (cnt := Z.min (en - st0 + 1) (Z.of_N (bsize (be st)) - st0)) in *.
     set (ls := firstn (Z.to_nat cnt) (skipn (Z.to_nat st0) (bs (be st)))).
